@@ -2,6 +2,7 @@ import DT.FuncKind
 import DT.ClassKind
 import DT.ArgAttr
 import DT.DocParse
+import DT.Refine
 /-! Chains of conversions at statement level (C05): every hop is the statement-level model of its kind - the three
     docstring styles (`emit.docstring` -> `parse_docstring` with its style detection), the class kind, the function /
     method kind, the argparse kind. Tied to the code by the driver operation `stmt_chain` (the real chain through the
@@ -64,6 +65,27 @@ theorem chain_append (edd : Bool) (a b : List Hop) (ir : IR) :
     | ok x => simp [Res.bind, ih]
     | raises k => rfl
     | unmodelled w => rfl
+
+end StmtChain
+end Py
+
+namespace Py
+namespace StmtChain
+
+/-- **the argparse hop of a statement-level chain refines the interface-level normal form**: for a description without
+    return entry whose options are of the modelled shapes, the hop succeeds, keeps the summary (unless it is written
+    between quotes, which `set_value` strips) and gives every option what `Kinds.norm .argparse` says, up to the one
+    reading of `Optional` without a value -/
+theorem hop_argparse_refines (ir : IR) (edd : Bool) (hr : ir.returns = none)
+    (hd : ClassAttr.setValue (.str ir.doc) = .str ir.doc)
+    (h : ∀ np ∈ ir.params, ArgAttr.ArgDom np.1 np.2) :
+    ∃ out, hop .argparse edd ir = .ok out ∧ out.doc = ir.doc ∧ out.returns = none ∧
+      out.params.map (fun nq => (nq.1, ArgAttr.canonOpt nq.2)) =
+        (Kinds.norm .argparse ir).params.map (fun np => (np.1, ArgAttr.canonOpt np.2)) := by
+  obtain ⟨qs, hq, hm⟩ := Refine.argparse_refines ir edd h
+  refine ⟨{ doc := ir.doc, params := qs, returns := none }, ?_, rfl, rfl, hm⟩
+  unfold hop
+  simp only [hr, hq, Res.bind, hd]
 
 end StmtChain
 end Py
